@@ -340,8 +340,7 @@ Section RescanAll.
   Lemma prepare_is_W0 : map (fun kd : nat * option cdisk => match snd kd with Some d => Some (prepare (nth (fst kd) usable false) d) | None => None end)
                             (combine (seq 0 (length (c_disks c))) (c_disks c)) = W 0.
   Proof.
-    unfold W. fold n. apply map_ext. intros [k od]. simpl. destruct od as [d|]; [|reflexivity]. f_equal.
-    unfold prepare, stable_state. reflexivity.
+    unfold W. fold n. apply map_ext. intros [k od]. simpl. destruct od as [d|]; reflexivity.
   Qed.
 
   Lemma in_combine_seq_nth {A} (l : list A) (dflt : A) k x : In (k, x) (combine (seq 0 (length l)) l) -> nth k l dflt = x /\ k < length l.
@@ -388,3 +387,56 @@ Section RescanAll.
       unfold cnt_differs. rewrite T1, T2, T3, T4, T5, T6. reflexivity.
   Qed.
 End RescanAll.
+
+(* every block synced and no DELETED entry: no stripe needs a sync *)
+Lemma slot_at_valid d pos :
+  (forall f b, In f (cd_files d) -> In b (cf_blocks f) -> fb_state b = SBlk) -> cd_deleted d = [] ->
+  slot_invalid_parity (slot_at d pos) = false.
+Proof.
+  intros Hb Hd. unfold slot_at. destruct (find_in_files pos (cd_files d)) as [[[f i] b]|] eqn:E.
+  - simpl. assert (In f (cd_files d) /\ In b (cf_blocks f)).
+    { clear - E. revert E. induction (cd_files d) as [|x t IH]; simpl; [discriminate|].
+      destruct (find_in_file pos 0 (cf_blocks x)) as [[i2 b2]|] eqn:E2.
+      - intro H; inversion H; subst. split; [left; reflexivity|]. clear - E2. revert E2. generalize 0.
+        induction (cf_blocks f) as [|y l IHl]; simpl; intros n E2; [discriminate|].
+        destruct (Nat.eqb (fb_pos y) pos); [inversion E2; subst; left; reflexivity | right; eapply IHl; eauto].
+      - intro H. destruct (IH H). split; [right; assumption | assumption]. }
+    destruct H as [Hf Hbin]. rewrite (Hb f b Hf Hbin). reflexivity.
+  - rewrite Hd. reflexivity.
+Qed.
+
+Lemma parity_invalid_all_blk c :
+  (forall d, In (Some d) (c_disks c) -> (forall f b, In f (cd_files d) -> In b (cf_blocks f) -> fb_state b = SBlk) /\ cd_deleted d = []) ->
+  parity_invalid c = false.
+Proof.
+  intro H. unfold parity_invalid. destruct (existsb _ (seq 0 (allocated_size c))) eqn:E; [|reflexivity].
+  apply existsb_exists in E. destruct E as [pos [_ En]]. unfold stripe_enabled in En. simpl in En.
+  apply andb_true_iff in En. destruct En as [_ En]. apply existsb_exists in En. destruct En as [s [Hs Hi]].
+  unfold slots_at in Hs. apply in_map_iff in Hs. destruct Hs as [[d|] [Es Hd]]; subst s; [|discriminate].
+  destruct (H d Hd) as [A B]. rewrite (slot_at_valid d pos A B) in Hi. discriminate.
+Qed.
+
+(* C11 sync_converges, second half, packaged: a content in which every disk records exactly its listing, with every block
+   synced and no DELETED entry left, is a fixed point of the scan, and diff exits 0 *)
+Theorem rescan_converged basef bs clearpast nocopy inf usable c L :
+  (forall k d, nth k (c_disks c) None = Some d -> recorded d (nth k L []) /\ cd_deleted d = []) ->
+  (forall k, nth k (c_disks c) None = None -> nth k L [] = []) ->
+  exists o, scan basef bs clearpast nocopy inf usable c L = Some o /\
+            sc_content o = c /\ cnt_differs (sc_cnt o) = false /\ diff_exit o = 0.
+Proof.
+  intros Hr Hn.
+  destruct (rescan_no_difference basef bs clearpast nocopy inf usable c L (fun k d H => proj1 (Hr k d H)) Hn)
+    as [o [E [D1 [D2 [D3 [Dc _]]]]]].
+  exists o. split; [exact E|].
+  assert (Ec : sc_content o = c) by (destruct (sc_content o), c; simpl in *; congruence).
+  split; [exact Ec|]. split; [exact Dc|].
+  unfold diff_exit.
+  assert (Es : sc_differs o = false).
+  { unfold scan in E. destruct (phase1 _ _ _ _ _ _ _ _); [|discriminate]. inversion E; subst o. simpl in *. exact Dc. }
+  assert (Ep : sc_parity_invalid o = false).
+  { assert (Epi : sc_parity_invalid o = parity_invalid (sc_content o)).
+    { unfold scan in E. destruct (phase1 _ _ _ _ _ _ _ _); [|discriminate]. inversion E; subst o. reflexivity. }
+    rewrite Epi, Ec. apply parity_invalid_all_blk. intros d Hd. apply In_nth with (d := None) in Hd. destruct Hd as [k [_ Hk]].
+    destruct (Hr k d Hk) as [R Dd]. split; [|exact Dd]. intros f b Hf Hb. destruct (rc_file_of _ _ R f Hf) as [A _]. exact (A b Hb). }
+  rewrite Es, Ep. reflexivity.
+Qed.
